@@ -329,6 +329,8 @@ class _Arr(PyNative):
     def __len__(self):
         return len(self.data)
 
+    dtype = "float64"
+
     def __str__(self):
         def rec(d):
             if isinstance(d, list):
@@ -696,3 +698,101 @@ def index_maps(repo, res):
             want.append(flat([val[i] for i in fi1], fid1))
         if list(got) != want:
             res.fail(key, f"{label}: component map is {list(got)}, expected {want}", m.line(g.node))
+
+
+@rule(
+    "QRULE-GROUP",
+    ["C11", "C01", "C06"],
+    "_group_integrands_by_quadrature_rule, interpreted with the basix / quadrature helpers modelled symbolically: every "
+    "integrand is filed under (integration-entity type, rule) where the rule is exactly the one its own metadata selects - "
+    "default schemes through create_quadrature_points_and_weights(integral type, cell, degree, scheme, argument elements, "
+    "tensor flag), custom rules from the metadata's points and weights, the vertex scheme from the entity's vertices with "
+    "weights volume/n - integrals with equal rules share one entry, different rules never do, and mixed facet types each get "
+    "their own key",
+    min_instances=6,
+)
+def qrule_group(repo, res):
+    RP = "ffcx.ir.representation"
+    m = repo.mod(RP)
+    f = m.func("_group_integrands_by_quadrature_rule")
+    res.functions.add(f.key)
+    topo = {
+        "CellType.triangle": [["CellType.point"] * 3, ["CellType.interval"] * 3, ["CellType.triangle"]],
+        "CellType.quadrilateral": [["CellType.point"] * 4, ["CellType.interval"] * 4, ["CellType.quadrilateral"]],
+        "CellType.tetrahedron": [["CellType.point"] * 4, ["CellType.interval"] * 6, ["CellType.triangle"] * 4, ["CellType.tetrahedron"]],
+        "CellType.prism": [["CellType.point"] * 6, ["CellType.interval"] * 9,
+                           ["CellType.triangle", "CellType.quadrilateral", "CellType.quadrilateral", "CellType.quadrilateral", "CellType.triangle"], ["CellType.prism"]],
+    }
+    nverts = {"CellType.point": 1, "CellType.interval": 2, "CellType.triangle": 3, "CellType.quadrilateral": 4, "CellType.tetrahedron": 4}
+    vol = {"CellType.point": 1.0, "CellType.interval": 1.0, "CellType.triangle": 0.5, "CellType.quadrilateral": 1.0, "CellType.tetrahedron": 1.0 / 6}
+    facets = {"triangle": ["interval"], "quadrilateral": ["interval"], "tetrahedron": ["triangle"], "prism": ["triangle", "quadrilateral"]}
+    ridges = {"tetrahedron": ["interval"], "prism": ["interval"]}
+
+    def cqpw(itype, cell, degree, scheme, elements, tp=False):
+        cn = cell.f["cellname"]
+        if itype == "cell":
+            names = [cn]
+        elif "facet" in itype:
+            names = facets[cn]
+        elif itype == "ridge":
+            names = ridges[cn]
+        elif itype == "vertex":
+            names = ["vertex"]
+        else:
+            names = []
+        tag = lambda n_: f"{n_},{degree},{scheme},{elements},{tp}"  # noqa: E731
+        return ({n_: f"P[{tag(n_)}]" for n_ in names}, {n_: f"W[{tag(n_)}]" for n_ in names}, {})
+
+    def mk():
+        it = Interp(repo, load_classes(repo), primary=RP)
+        it.overrides["basix_cell_from_string"] = _PyCall(lambda s_: "CellType.point" if s_ == "vertex" else f"CellType.{s_}")
+        it.overrides["basix.cell.subentity_types"] = _PyCall(lambda ct: topo[ct])
+        it.overrides["basix.cell.geometry"] = _PyCall(lambda ct: _Arr([[float(k_)] for k_ in range(nverts[ct])]))
+        it.overrides["basix.cell.volume"] = _PyCall(lambda ct: vol[ct])
+        it.overrides["basix.CellType.point"] = "CellType.point"
+        it.overrides["np.full"] = _PyCall(lambda n_, v, dtype=None: [v] * n_)
+        it.overrides["np.asarray"] = _PyCall(lambda x: x)
+        it.overrides["create_quadrature_points_and_weights"] = _PyCall(cqpw)
+        it.overrides["QuadratureRule"] = _PyCall(lambda p_, w_, tf=None: ("rule", str(p_), str(w_), str(tf)))
+        it.overrides["warnings.warn"] = _PyCall(lambda *a, **k: None)
+        return it
+
+    def integral(k, md):
+        return Node("Integral", metadata=_PyCall(lambda _m=md: dict(_m)), integrand=_PyCall(lambda _k=k: f"integrand{_k}"))
+
+    D = lambda deg, scheme="default": {"quadrature_degree": deg, "quadrature_rule": scheme}  # noqa: E731
+    CU = {"quadrature_rule": "custom", "quadrature_points": "CP", "quadrature_weights": "CW"}
+    cases = [
+        ("cell, triangle: degrees 2, 2, 4", "cell", "triangle", [D(2), D(2), D(4)], False,
+         {"CellType.triangle": {("P[triangle,2,default,ELS,False]", "W[triangle,2,default,ELS,False]"): [0, 1], ("P[triangle,4,default,ELS,False]", "W[triangle,4,default,ELS,False]"): [2]}}),
+        ("cell, quadrilateral with sum factorisation: GLL degree 3 and default degree 3", "cell", "quadrilateral", [D(3, "GLL"), D(3)], True,
+         {"CellType.quadrilateral": {("P[quadrilateral,3,GLL,ELS,True]", "W[quadrilateral,3,GLL,ELS,True]"): [0], ("P[quadrilateral,3,default,ELS,True]", "W[quadrilateral,3,default,ELS,True]"): [1]}}),
+        ("exterior facet, quadrilateral: custom rule and default degree 3", "exterior_facet", "quadrilateral", [CU, D(3)], True,
+         {"CellType.interval": {("CP", "CW"): [0], ("P[interval,3,default,ELS,False]", "W[interval,3,default,ELS,False]"): [1]}}),
+        ("interior facet, prism: default degree 2", "interior_facet", "prism", [D(2)], False,
+         {"CellType.triangle": {("P[triangle,2,default,ELS,False]", "W[triangle,2,default,ELS,False]"): [0]},
+          "CellType.quadrilateral": {("P[quadrilateral,2,default,ELS,False]", "W[quadrilateral,2,default,ELS,False]"): [0]}}),
+        ("exterior facet, tetrahedron: vertex scheme", "exterior_facet", "tetrahedron", [D(1, "vertex")], False,
+         {"CellType.triangle": {("[[0] [1] [2]]", str([0.5 / 3] * 3)): [0]}}),
+        ("cell, triangle: vertex scheme next to degree 2", "cell", "triangle", [D(1, "vertex"), D(2)], False,
+         {"CellType.triangle": {("[[0] [1] [2]]", str([0.5 / 3] * 3)): [0], ("P[triangle,2,default,ELS,False]", "W[triangle,2,default,ELS,False]"): [1]}}),
+        ("ridge, tetrahedron: custom rule", "ridge", "tetrahedron", [CU], False, {"CellType.interval": {("CP", "CW"): [0]}}),
+        ("vertex integral: default", "vertex", "triangle", [D(1)], False, {"CellType.point": {("P[vertex,1,default,ELS,False]", "W[vertex,1,default,ELS,False]"): [0]}}),
+    ]
+    for label, itype, cn, mds, sf, want in cases:
+        key = f"{f.key}:{label}"
+        res.ob(key)
+        ints = [integral(k, md) for k, md in enumerate(mds)]
+        try:
+            got = mk().call_f(f, [ints, "ELS", itype, Node("Cell", cellname=cn), sf])
+        except Raised as e:
+            res.fail(key, f"_group_integrands_by_quadrature_rule raises ({e.what}) on `{label}`", m.line(f.node))
+            continue
+        norm = {}
+        for ct, rules in (got or {}).items():
+            for r_, integrands in rules.items():
+                norm.setdefault(ct, {})[(r_[1], r_[2]) if isinstance(r_, tuple) else r_] = [int(str(x).replace("integrand", "")) for x in integrands]
+        want_n = {ct: {(p_.replace("[[0] [1] [2]]", str(_Arr([[0.0], [1.0], [2.0]]))), w_): v for (p_, w_), v in d_.items()} for ct, d_ in want.items()}
+        if norm != want_n:
+            res.fail(key, f"`{label}`: integrands are filed as {norm}, expected {want_n}: each integrand must be integrated with the rule its own metadata "
+                     "selects, under the type of its integration entity", m.line(f.node))
